@@ -108,27 +108,89 @@ Qed.
 Lemma as_dict_distinct : forall (V : Type) (l : list (str * V)), distinct (map fst l) = true -> as_dict l = l.
 Proof. intros V l H. unfold as_dict. rewrite as_dict_distinct_gen; [reflexivity|exact H]. Qed.
 
-(* ---- whole DFXP trees -------------------------------------------------------------------------------- *)
-Lemma lang_of_div_lang : forall default tt own, div_lang own tt default = lang_of default tt own.
-Proof. reflexivity. Qed.
+(* ---- whole DFXP documents: several divisions of one language, nested divisions ------------------------ *)
+Lemma chain_lang_nearest : forall default tt ch, chain_lang default tt ch = nearest_lang default tt ch.
+Proof. induction ch as [|[l|] t IH]; cbn [chain_lang nearest_lang]; [reflexivity|reflexivity|exact IH]. Qed.
 
-Theorem dfxp_tree_exact : forall default tt divs, tree_dom default tt divs = true ->
-  dfxp_read_tree default tt (map (fun dv => (fst dv, map ap_render (snd dv))) divs)
-  = set_result (tree_expected default tt divs).
+Lemma first_seen_gen : forall ls acc,
+  fold_left (fun acc l => if existsb (str_eqb l) acc then acc else acc ++ [l]) ls acc
+  = acc ++ languages_in_order acc ls.
 Proof.
-  intros default tt divs H. unfold tree_dom in H. apply andb_true_iff in H. destruct H as [Hd Hp].
-  unfold dfxp_read_tree.
-  assert (R : res_map (fun dv : option str * list xp =>
-                         do caps <- dfxp_div_caps (snd dv); Ok (div_lang (fst dv) tt default, caps))
-                      (map (fun dv => (fst dv, map ap_render (snd dv))) divs)
-              = Ok (tree_expected default tt divs)).
-  { unfold tree_expected. clear Hd. induction divs as [|dv divs IH]; [reflexivity|].
-    cbn [forallb] in Hp. apply andb_true_iff in Hp. destruct Hp as [H1 H2].
-    cbn [map res_map fst snd]. rewrite dfxp_div_caps_exact by exact H1. cbn [bind].
-    rewrite (IH H2). reflexivity. }
-  rewrite R. cbn [bind]. rewrite as_dict_distinct.
-  - reflexivity.
-  - unfold tree_expected. rewrite map_map. cbn [fst]. exact Hd.
+  induction ls as [|l t IH]; intros acc; cbn [fold_left languages_in_order]; [rewrite app_nil_r; reflexivity|].
+  destruct (existsb (str_eqb l) acc); rewrite IH; [reflexivity|]. rewrite <- app_assoc. reflexivity.
+Qed.
+
+Lemma first_seen_spec : forall ls, first_seen ls = languages_in_order [] ls.
+Proof. intros. unfold first_seen. rewrite first_seen_gen. reflexivity. Qed.
+
+Lemma str_eqb_sym : forall a b, str_eqb a b = str_eqb b a.
+Proof.
+  induction a as [|x a IH]; intros [|y b]; cbn [str_eqb]; try reflexivity.
+  rewrite IH, Z.eqb_sym. reflexivity.
+Qed.
+
+Definition select_lang {A} (k : str) (caps : list (option (str * A))) : list A :=
+  flat_map (fun o => match o with Some (l, c) => if str_eqb k l then [c] else [] | None => [] end) caps.
+
+Lemma dict_push_fold : forall (A : Type) (caps : list (option (str * A))) (d : list (str * list A)),
+  fold_left (fun d o => match o with Some (l, c) => dict_push l c d | None => d end) caps d
+  = map (fun kv => (fst kv, snd kv ++ select_lang (fst kv) caps)) d.
+Proof.
+  intros A. induction caps as [|o caps IH]; intros d.
+  - cbn [fold_left]. rewrite <- (map_id d) at 1. apply map_ext. intros [k v]. cbn [fst snd select_lang flat_map].
+    rewrite app_nil_r. reflexivity.
+  - cbn [fold_left]. rewrite IH. destruct o as [[l c]|].
+    + unfold dict_push. rewrite map_map. apply map_ext. intros [k v]. cbn [fst snd].
+      cbn [select_lang flat_map]. destruct (str_eqb k l); cbn [fst snd app].
+      * rewrite <- app_assoc. reflexivity.
+      * reflexivity.
+    + apply map_ext. intros [k v]. reflexivity.
+Qed.
+
+Theorem dfxp_doc_exact : forall default tt divs ps, doc_dom divs ps = true ->
+  dfxp_read_doc default tt divs (map (fun cp => (fst cp, ap_render (snd cp))) ps)
+  = set_result (doc_expected default tt divs ps).
+Proof.
+  intros default tt divs ps H. unfold dfxp_read_doc.
+  set (g := fun cp : option (list (option str)) * ap =>
+              match fst cp, snd cp with
+              | Some ch, APText _ t => Some (chain_lang default tt ch, dfxp_p_expected t)
+              | _, _ => None
+              end).
+  assert (R : res_map (fun cp : option lang_chain * xp =>
+                         match fst cp with
+                         | Some ch =>
+                             if xp_text (snd cp)
+                             then do c <- (let '(b, e, d) := xp_times (snd cp) in dfxp_p_times b e d);
+                                  Ok (Some (chain_lang default tt ch, c))
+                             else Ok None
+                         | None => Ok None
+                         end) (map (fun cp => (fst cp, ap_render (snd cp))) ps)
+              = Ok (map g ps)).
+  { unfold doc_dom in H. clear -H. induction ps as [|[och p] ps IH]; [reflexivity|].
+    cbn [forallb] in H. apply andb_true_iff in H. destruct H as [Hp Hps].
+    apply andb_true_iff in Hp. destruct Hp as [Hd _]. cbn [snd] in Hd.
+    cbn [map res_map fst snd]. unfold g at 1. cbn [fst snd].
+    destruct och as [ch|]; [|cbn [bind]; rewrite (IH Hps); reflexivity].
+    destruct p as [ex t|a]; cbn [ap_render xp_text].
+    - cbn [ap_dom] in Hd. apply andb_true_iff in Hd. destruct Hd as [Hf Ht].
+      change (mkXp (ex ++ time_attrs t) true) with (ap_render (APText ex t)).
+      rewrite (xp_times_render ex t Hf). rewrite (dfxp_p_exact t Ht). cbn [bind]. rewrite (IH Hps). reflexivity.
+    - cbn [bind]. rewrite (IH Hps). reflexivity. }
+  rewrite R. cbn [bind]. rewrite dict_push_fold. rewrite map_map. cbn [fst snd app].
+  rewrite first_seen_spec.
+  assert (E : map (fun x : str => (x, select_lang x (map g ps)))
+                  (languages_in_order [] (map (chain_lang default tt) divs))
+              = doc_expected default tt divs ps).
+  { unfold doc_expected, doc_expected_with.
+    assert (M : map (chain_lang default tt) divs = map (nearest_lang default tt) divs)
+      by (apply map_ext; intros; apply chain_lang_nearest).
+    rewrite M. apply map_ext. intros l. f_equal.
+    unfold select_lang. clear. induction ps as [|[och p] ps IH]; [reflexivity|].
+    cbn [map flat_map fst snd]. rewrite IH. f_equal. unfold g. cbn [fst snd].
+    destruct och as [ch|]; [|reflexivity]. destruct p as [ex t|a]; [|reflexivity].
+    rewrite chain_lang_nearest. rewrite (str_eqb_sym l). reflexivity. }
+  rewrite E. reflexivity.
 Qed.
 
 (* the reader refuses a paragraph with text that lacks a begin, or lacks both end and dur *)
